@@ -805,7 +805,11 @@ impl<'v, 'a, 'e: 'a> Evaluator<'v, 'a, 'e> {
         self.time_flame_profile
             .record_call_enter(const_frozen_string!("trace/walk").to_value());
         self.module_env.trace(tracer);
-        self.current_frame.trace(tracer);
+        // There is no current frame when the collection is requested
+        // by the embedder between evaluations.
+        if self.current_frame.is_inititalized() {
+            self.current_frame.trace(tracer);
+        }
         for frame in &mut self.frame_stack {
             if frame.is_inititalized() {
                 frame.trace(tracer);
